@@ -515,7 +515,7 @@ def run(ctx, n_override=None):
                 '29 February; interleaved sessions; check-outs with and without account; sessions left open; every malformed kind), each '
                 'run with and without --day-break; non-trivial = the file closes at least one session or contains an erroneous line; '
                 'distinct by file text, --now and the day-break flag')
-    n = n_override or ctx.scale(1000, 6000)
+    n = n_override or ctx.scale(1000, 10000)
     cases = []
     for i in range(n):
         k = rng.random()
